@@ -314,8 +314,9 @@ class Tree:
     def rel(self, p):
         if p is None:
             return None
-        p = p.replace("\\", "/")
-        b = self.base.replace("\\", "/")
+        if os.sep == "\\":                         # only where the backslash is the separator; elsewhere it is an ordinary character of a name
+            p = p.replace("\\", "/")
+        b = self.base.replace("\\", "/") if os.sep == "\\" else self.base
         return p[len(b):] if p.startswith(b) else "ABS:" + p
 
     def close(self):
